@@ -142,6 +142,29 @@ def unit_advancers(funcs):
     return unit
 
 
+def _count_down(f, b, j, unit):
+    """(declaration element of j, S, unit call) for `for (j = S; j > 0; --j) unit();` headed by block b, S an unmodified local / parameter"""
+    body, work, seen = [], [b.succs[0]], set()
+    while work:
+        x = work.pop()
+        if x is None or x == b.id or x in seen:
+            continue
+        seen.add(x)
+        body.extend(e for e in f.blocks[x].elems if e.kind == "stmt" and "root" in e.raw)
+        work.extend(f.blocks[x].succs)
+    calls = [e for e in body if e.node.get("k") == "mcall" and e.node.get("callee") in unit]
+    decs = [e for e in body if e.node.get("k") == "un" and "--" in e.node.get("op", "") and strip_casts(e.node["v"]).get("n") == j["n"]]
+    if len(body) != 2 or len(calls) != 1 or len(decs) != 1 or len(local_writes(f, j["n"])) != 1:
+        return None
+    decl = [(e, v) for e in f.stmts() if e.node.get("k") == "decl" for v in e.node["vars"] if v["n"] == j["n"] and strip_casts(v.get("init") or {}).get("k") == "var"]
+    if len(decl) != 1:
+        return None
+    sname = strip_casts(decl[0][1]["init"])["n"]
+    if local_writes(f, sname):
+        return None
+    return decl[0][0], sname, calls[0]
+
+
 def counted_loops(f, unit):
     """`for (j = 0; j < S; ++j) unit();`  ->  {decl elem of j: (S symbol, call elem)}"""
     out = {}
@@ -152,6 +175,12 @@ def counted_loops(f, unit):
         if not cp or cp[0] != "<":
             continue
         j, s = strip_casts(cp[1]), strip_casts(cp[2])
+        if const_value(j) == 0 and s.get("k") == "var":
+            # count-down variant `for (j = S; j > 0; --j) unit();` (stored as `0 < j`): S advances as well
+            down = _count_down(f, b, s, unit)
+            if down is not None:
+                out[down[0]] = (down[1], down[2])
+            continue
         if j.get("k") != "var" or s.get("k") != "var":
             continue
         # body: blocks from the true edge back to b
@@ -191,7 +220,7 @@ class ValidBounds:
     function's *limit parameters* (positions every call site was shown to establish, see cursor_program).  A form over the cursor dies when the
     cursor moves, a form over a local when the local is written."""
 
-    def __init__(self, f, movers=(), assumed=()):
+    def __init__(self, f, movers=(), assumed=(), pos_helpers=()):
         self.f = f
         self.movers = set(id(m) for m in movers)
         self.find_len = {}
@@ -199,6 +228,9 @@ class ValidBounds:
             if e.node.get("k") == "decl":
                 for v in e.node["vars"]:
                     i = strip_casts(strip_wrappers(v.get("init") or {}))
+                    if i.get("k") == "mcall" and i.get("callee") in pos_helpers and strip_casts(i.get("obj") or {"k": "this"}).get("k") == "this":
+                        # `p = helper()` with a family helper that returns npos or a position < size (position_helpers): like a one-byte find() hit
+                        self.find_len[v["n"]] = form(1, (v["n"],))
                     if i.get("k") == "mcall" and is_input(i.get("obj")) and last(i.get("callee", "")) == "find" and i.get("args"):
                         lit = [x for x in walk(i["args"][0]) if x.get("k") in ("str", "char")]
                         what = strip_views(i["args"][0])
@@ -231,6 +263,10 @@ class ValidBounds:
         elif n.get("k") == "decl":
             for v in n["vars"]:
                 st = frozenset(x for x in st if v["n"] not in x[1] and not any(s.startswith(v["n"] + ".") for s in x[1]))
+                # a local that NAMES an established position (`const std::size_t stop = pos + endSeq.size();`) is one itself, until it is written
+                fm = lin(v["init"]) if isinstance(v.get("init"), dict) else None
+                if fm is not None and fm[1] and v["n"] not in fm[1] and valid_in(fm, st):
+                    st = st | frozenset([form(0, (v["n"],))])
         if killed:
             st = frozenset(x for x in st if killed not in x[1] and not any(s.startswith(killed + ".") for s in x[1]))
         return st
@@ -322,6 +358,27 @@ def cursor_program(ctx):
     movers = {f: cursor_moves(f, names) for f in funcs}
     limits = limit_params(funcs, names)
     bounds = {f: ValidBounds(f, movers[f], sorted(limits[f])) for f in funcs}
+    # position helpers: a family method that does not move the cursor and whose every return is `npos` or a position P with P < size established at
+    # the return (`for (pos = _cur; pos < size; ++pos) … return pos;`).  Its callers may treat `p = helper(); p != npos` like a find() hit.
+    pos_helpers = set()
+    for g in funcs:
+        rets = common.returns(g)
+        if movers[g] or not rets or "long" not in (g.raw.get("ret") or g.raw.get("rettype") or "long"):
+            continue
+        good, some = True, False
+        for e in rets:
+            v = strip_casts(e.node.get("v") or {})
+            if "npos" in show(v):
+                continue
+            fm = lin(v)
+            stt = bounds[g].flow.before(e)
+            if fm is None or not fm[1] or stt is None or not valid_in(form(fm[0] + 1, fm[1]), stt):
+                good = False
+            some = True
+        if good and some:
+            pos_helpers.add(g.name)
+    if pos_helpers:
+        bounds = {f: ValidBounds(f, movers[f], sorted(limits[f]), pos_helpers) for f in funcs}
 
     def alias_ok(f, name, use_elem):
         """snapshot `name` still equals the cursor at use_elem: no cursor move on a path from its declaration to the use"""
@@ -413,6 +470,14 @@ def cursor_program(ctx):
                 if g.name in inl:
                     return guard_ops(inl[g.name], t, CUR, SIZE_SYMS)
                 return [("atleast", prog.post_true[g] if t else prog.post_false[g])]
+            # subtraction form `_input.size() - _cur  op  n` (no wrap: the class invariant is _cur <= size): what remains is compared directly
+            for q in common.cmp_both(x):
+                l_ = strip_casts(q[1])
+                if l_ is not None and l_.get("k") == "bin" and l_.get("op") == "-" and is_cur(l_["rhs"]) and show(strip_casts(l_["lhs"])) in SIZE_SYMS:
+                    fm = lin(q[2])
+                    op = q[0] if t else {"<": ">=", ">=": "<", ">": "<=", "<=": ">", "==": "!=", "!=": "=="}[q[0]]
+                    if fm is not None and CUR not in fm[1] and op in (">=", ">", "=="):
+                        return [("atleast", form(fm[0] + (1 if op == ">" else 0), fm[1]))]
             cp = next((q for q in common.cmp_both(x) if is_cur(q[1])), None)
             if cp and is_cur(cp[1]):
                 op = cp[0] if t else {"<": ">=", ">=": "<", ">": "<=", "<=": ">", "==": "!=", "!=": "=="}[cp[0]]
@@ -512,6 +577,37 @@ def const_index_ok(f, e, buf, k):
     return False
 
 
+def view_source_ok(funcs, f, n, depth=0):
+    """the string_view expression `n` of family function f is an input slice (or empty): `_input.substr(…)` / readName(), a default-constructed view,
+    the value of an optional returned by a family function all of whose returns are such slices or nullopt, an unmodified local initialised with one, or
+    a parameter of a private f for which every family call site passes one"""
+    by = {}
+    for g in funcs:
+        by.setdefault(g.name, []).append(g)
+    n = strip_views(n)
+    if n is None or depth > 4:
+        return False
+    k = n.get("k")
+    if k == "ctor" and last(n.get("cls", "")) in ("basic_string_view", "optional"):
+        args = [a for a in n.get("args", []) if not a.get("def")]
+        return not args or (len(args) == 1 and view_source_ok(funcs, f, args[0], depth + 1))
+    if k == "zero" or (k == "ilist" and not n.get("vals")):
+        return True
+    if k == "mcall" and last(n.get("callee", "")) in ("substr", "readName") and (is_input(n.get("obj")) or strip_casts(n.get("obj") or {"k": "this"}).get("k") == "this"):
+        return True
+    if (k == "opcall" and n.get("op") == "*" and len(n["args"]) == 1) or (k == "mcall" and last(n.get("callee", "")) in ("value", "operator*")):
+        return view_source_ok(funcs, f, n["args"][0] if k == "opcall" else n.get("obj"), depth + 1)
+    if k == "mcall" and n.get("callee") in by:
+        return all(("nullopt" in show(e.node) or view_source_ok(funcs, g, e.node.get("v"), depth + 1)) for g in by[n["callee"]] for e in common.returns(g)) and any(common.returns(g) for g in by[n["callee"]])
+    if k == "var" and n.get("parm") is None:
+        defs = [v.get("init") for d in f.stmts() if d.node.get("k") == "decl" for v in d.node["vars"] if v.get("d") == n.get("d")]
+        return bool(defs) and not writes_of(f, n.get("d")) and all(isinstance(dd, dict) and view_source_ok(funcs, f, dd, depth + 1) for dd in defs)
+    if k == "var" and n.get("parm") is not None and f.access == "private" and not writes_of(f, n.get("d")):
+        sites = [(g, e) for g in funcs for e in g.stmts() if e.node.get("k") == "mcall" and e.node.get("callee") == f.name and len(e.node["args"]) == len(f.params)]
+        return bool(sites) and all(view_source_ok(funcs, g, e.node["args"][n["parm"]], depth + 1) for g, e in sites)
+    return False
+
+
 def r1(ctx, r):
     fb = ctx.fb()
     prog, funcs, snaps, loops, unit = cursor_program(ctx)
@@ -594,8 +690,8 @@ def r1(ctx, r):
                 ok = is_cur(a) or (a.get("k") == "var" and (a["n"] in snaps[f] or a["n"] in outargs))
                 r.expect(ok, f, e, "slice start: %s" % show(a), "%s builds a slice of the input starting at `%s`, which is neither the cursor nor an unmodified snapshot of it (a start beyond the input throws / points outside)"
                          % (last(f.name), show(a)), okdesc="%s: substr(%s, …) starts at a cursor snapshot" % (last(f.name), show(a)))
-    if nsl < 7:
-        raise AnalysisBroken("only %d _input.substr sites (floor 7)" % nsl)
+    if nsl < 4:      # 7 on the pinned tree; merging readers legitimately removes sites
+        raise AnalysisBroken("only %d _input.substr sites (floor 4)" % nsl)
     # token views only from slices
     srcs_ok = ("substr", "readName")
     for f in funcs:
@@ -611,9 +707,11 @@ def r1(ctx, r):
             ok = False
             if rhs.get("k") == "mcall" and last(rhs.get("callee", "")) in srcs_ok:
                 ok = True
-            elif rhs.get("k") == "var":
+            elif rhs.get("k") == "var" and rhs.get("parm") is None:
                 defs = [v.get("init") for d in f.stmts() if d.node.get("k") == "decl" for v in d.node["vars"] if v["n"] == rhs["n"]]
                 ok = bool(defs) and all(dd is not None and strip_casts(strip_wrappers(dd)).get("k") == "mcall" and last(strip_casts(strip_wrappers(dd)).get("callee", "")) in srcs_ok for dd in defs)
+            if not ok:
+                ok = view_source_ok(funcs, f, ap[1])
             r.expect(ok, f, e, "token view source: %s" % lt, "%s stores `%s` into %s, which is not a slice of the input produced by substr()/readName()" % (last(f.name), show(rhs)[:40], lt),
                      okdesc="%s: %s is an input slice" % (last(f.name), lt))
     # constructor starts at 0; offsets are the cursor
@@ -731,6 +829,7 @@ def r2(ctx, r):
     fb = ctx.fb()
     funcs = methods(ctx) + [f for f in fb.methods_of(XP) if f.kind == "ctor" and f.ok]
     end, start, eof, nxt, fail = xp(ctx, "readEndTag"), xp(ctx, "readStartOrEmptyTag"), xp(ctx, "emitEof"), xp(ctx, "next"), xp(ctx, "fail")
+    xp(ctx, "produced")      # the balance clauses are phrased over the token production point produced(): without that function (inlined) they refuse
     # who may change the stack
     allowed = {("push_back", start.name), ("emplace_back", start.name), ("pop_back", end.name), ("clear", "ctor")}
     n = 0
